@@ -27,10 +27,11 @@ CHECKS = {
     ),
     "C01": (
         "exploration",
-        "bounded exhaustive enumeration of all data matrices over small alphabets x 12 cost variants x all admissible "
+        "bounded exhaustive enumeration of all data matrices over small alphabets x 16 cost variants x all admissible "
         "intervals x batch shapes, real evaluate vs exact rational-arithmetic definition",
         "Every matrix of the stated spaces is fitted and every admissible interval evaluated alone, in full batches in both "
-        "orders, in ordered pairs and again afterwards; values compared with the definition computed from X[s:e] in Fractions.",
+        "orders, in sandwich batches, in ordered pairs and again afterwards (also after a call that raised, and with an earlier result still held); "
+        "values compared with the definition computed from X[s:e] in Fractions; plus all ~45 000 / ~180 000 intervals of one n = 300 / 600 series in a single call vs chunked calls.",
         "DESIGN.md §5 C01",
     ),
     "C06": (
@@ -93,9 +94,10 @@ CHECKS = {
         "explicit-state breadth-first search over call histories of real objects (all event sequences up to a depth bound, "
         "states de-duplicated on a structural hash of object graph + model + module globals), every transition compared "
         "with a constructor-built pristine reference",
-        "All histories up to the depth bound over 20 worlds (detectors, scorers, shared scorers, nested set_params, clone, "
-        "update) are executed on the implementation; each transition is an implementation execution validated against the "
-        "boring reference model (hyper-parameters, last fit data, fitted flag).",
+        "All histories up to the depth bound over 45 worlds (detectors, scorers, shared scorers and wrappers, two instances per class, "
+        "nested set_params, clone, update, a caller-mutated buffer, a call that fails half-way) are executed on the implementation; each "
+        "transition is an implementation execution validated against the boring reference model (hyper-parameters, last fit data, "
+        "fitted flag); event chains without intermediate state copies re-examine results the caller still holds.",
         "DESIGN.md §5 C10",
     ),
     "C11": (
